@@ -486,7 +486,7 @@ def make(name):
 def run(ctx):
     thorough = ctx.tier == "thorough"
     plan = {"H1s": 1, "H1l": 1, "H2": 1, "H2b": 2, "H3s": 1, "H4s": 1, "H4t": 1, "H4p": 1, "H4b": 1, "H5s": 1, "H6s": 1} if not thorough else \
-           {"H1s": 2, "H1l": 2, "H1": 1, "H2": 2, "H2b": 3, "H3s": 2, "H3": 1, "H4s": 2, "H4t": 2, "H4p": 2, "H4b": 2, "H4c": 1, "H4": 1, "H5s": 2, "H5": 1, "H6s": 2, "H6": 1}
+           {"H1s": 2, "H1l": 2, "H1": 1, "H2": 2, "H2b": 3, "H3s": 2, "H3": 1, "H4s": 2, "H4t": 2, "H4p": 2, "H4b": 1, "H4c": 1, "H4": 1, "H5s": 2, "H5": 1, "H6s": 2, "H6": 1}
     tot_s = tot_steps = 0
     outcomes = 0
     samples = []
